@@ -639,6 +639,17 @@ def run_scenarios(ck, exes, scs, nrand, label, stats, with_model=True):
             for o in st["orders_bad"]:
                 stats["orders_bad"].add(o)
             casf = sum(1 for e in r["log"] if e[0] == "e" and e[2] == "cas" and e[6] == "0")
+            for e in r["log"]:
+                if e[0] != "e":
+                    continue
+                if e[2] == "cas" and e[3] == "bc" and e[6] == "1":
+                    stats["table_doublings"] += 1
+                elif e[2] == "store" and e[3].startswith("slot"):
+                    stats["bucket_inits"] += 1
+                elif e[2] == "cas" and e[6] == "0" and re.search(r"\.next[1-9]\d*$", e[3]):
+                    stats["upper_level_cas_failures"] += 1
+                elif e[2] == "cas" and e[3] == "maxh":
+                    stats["max_height_cas"] += 1
             ck.count(1, (sc["kind"], sc["family"], len(sc["progs"]), min(casf, 3), r["aux"].get("bcfin", r["aux"].get("maxhfin")),
                          tuple(sorted(set(v[0] + v[-1] for v in r["res"].values())))))
             stats["cas_failures"] += casf
@@ -738,13 +749,16 @@ def run(ck):
     pure(ck)
     exes = {"uo": build("uo"), "sl": build("sl")}
     stats = {"scenarios": 0, "runs": 0, "events": 0, "skipped_loads": 0, "unmodelled_accesses": 0, "orders_bad": set(), "cas_failures": 0,
-             "dfs_runs": 0, "families": {}, "observations": 0, "observation_samples": []}
+             "dfs_runs": 0, "families": {}, "observations": 0, "observation_samples": [],
+             "table_doublings": 0, "bucket_inits": 0, "upper_level_cas_failures": 0, "max_height_cas": 0}
     bad_corr, bad_mon = run_scenarios(ck, exes, CORPUS, 40 if quick else 200, "corpus", stats)
-    scs = make_scenarios(ck, 100 if quick else 500, 90 if quick else 450)
+    scs = make_scenarios(ck, 100 if quick else 800, 90 if quick else 700)
     bc2, bm2 = run_scenarios(ck, exes, scs, 12 if quick else 30, "random", stats)
     bad_corr += bc2
     bad_mon += bm2
     bad_mon += run_dfs(ck, exes, CORPUS, 2, 6000 if quick else 150000, stats)
+    if not quick:
+        bad_mon += run_dfs(ck, exes, CORPUS, 3, 60000, stats)
     bad_mon += run_probes(ck, exes)
     searched = False
     if (ck.broken() or bad_corr) and not bad_mon:
